@@ -1,6 +1,6 @@
 From Coq Require Import ZArith List Bool.
 Import ListNotations.
-From GV Require Import Common.PyInt gen.Gen_array C04.Model C04.Lemmas C04.Discharge.
+From GV Require Import Common.PyInt gen.Gen_array gen.Gen_viewprog C04.Model C04.Lemmas C04.Discharge C04.Lemmas2 C04.Lemmas3.
 Open Scope Z_scope.
 
 (* SliceSubsetState.to_mask(data, view) = SliceSubsetState.to_mask(data)[view], pointwise and with the same shape,
@@ -95,3 +95,136 @@ Theorem slice_state_full_closed :
     sh = shape /\ forall j, in_box shape j -> m j = slices_full_mask shape slices j.
 Proof. exact Discharge.slice_state_full_closed. Qed.
 Print Assumptions slice_state_full_closed.
+
+(* ---- round 4: leaves that are functions of the WHOLE array (ParsedSubsetState / ParsedComponentLink expressions with
+   reductions and position-dependent functions), evaluation order, codes of categorical views.
+   An array is its row-major value list; a view of any kind (basic, index arrays, boolean mask, IndexedData's implicit
+   view) is the list `pos` of flat positions it selects; in_range n pos: every position is inside the array.
+   The model of ParsedSubsetState.to_mask(data, view) is parsed_mask_view: evaluate on the whole array, apply the view
+   afterwards. *)
+
+(* "view of mask = mask of view" holds for a parsed leaf exactly under the predicate `belementwise`: pushing the view
+   inside the expression (every {x} read through the view) gives the view of the full mask ... *)
+Theorem parsed_view_pushdown_elementwise :
+  forall e, belementwise e = true ->
+  forall xs pos, in_range (length xs) pos -> parsed_mask_pushdown e xs pos = parsed_mask_view e xs pos.
+Proof. exact Lemmas2.elementwise_mask_pushdown. Qed.
+Print Assumptions parsed_view_pushdown_elementwise.
+
+(* ... the same for the values of a derived attribute defined by an expression (ParsedComponentLink) ... *)
+Theorem parsed_values_pushdown_elementwise :
+  forall e, aelementwise e = true ->
+  forall xs pos, in_range (length xs) pos -> parsed_values_pushdown e xs pos = parsed_values_view e xs pos.
+Proof. exact Lemmas2.elementwise_values_pushdown. Qed.
+Print Assumptions parsed_values_pushdown_elementwise.
+
+(* ... and it is wrong for a leaf that is not element-wise ("above the average" on [1; 2; 30] under the view [0:2]).
+   Full statement that does NOT hold:  forall e xs pos, in_range (length xs) pos -> parsed_mask_pushdown e xs pos = parsed_mask_view e xs pos.
+   The code pushes the view inside for EVERY ParsedComponentLink (known finding parsed-link-whole-array-view). *)
+Theorem parsed_pushdown_refuted :
+  exists e xs pos, in_range (length xs) pos /\ belementwise e = false /\ parsed_mask_pushdown e xs pos <> parsed_mask_view e xs pos.
+Proof. exact Lemmas2.pushdown_refuted. Qed.
+Print Assumptions parsed_pushdown_refuted.
+
+(* every primitive whole-array construct of the expression language has such a witness *)
+Theorem parsed_pushdown_refuted_each :
+  Forall (fun e => aelementwise e = false /\
+                   exists xs pos, in_range (length xs) pos /\ parsed_values_pushdown e xs pos <> parsed_values_view e xs pos)
+         [ASum AX; AMax AX; AMin AX; ASize; AArange; ACumsum AX; ARoll 1 AX].
+Proof. exact Lemmas2.pushdown_refuted_each. Qed.
+Print Assumptions parsed_pushdown_refuted_each.
+
+(* Evaluation order. Trivial because the model is a pure function without hidden state, and stated for that reason: the
+   answer to a request does not depend on the requests made before or after it on the same array. The correspondence
+   compares the implementation under both orders (view first on a fresh twin / full first) with this one answer. *)
+Theorem session_order_independent :
+  forall Q A (answer : Q -> A) (pre post : list Q) (r : Q) (d : A),
+    nth (length pre) (session answer (pre ++ r :: post)) d = answer r.
+Proof. exact Lemmas2.session_order_independent. Qed.
+Print Assumptions session_order_independent.
+
+Theorem parsed_view_first_eq_full_first :
+  forall e xs pos,
+    nth 0 (session (parsed_answer e xs) [RView pos; RFull]) [] = nth 1 (session (parsed_answer e xs) [RFull; RView pos]) [] /\
+    nth 1 (session (parsed_answer e xs) [RView pos; RFull]) [] = nth 0 (session (parsed_answer e xs) [RFull; RView pos]) [] /\
+    nth 0 (session (parsed_answer e xs) [RView pos; RFull]) [] = gather false pos (nth 1 (session (parsed_answer e xs) [RView pos; RFull]) []).
+Proof. exact Lemmas2.parsed_view_first_eq_full_first. Qed.
+Print Assumptions parsed_view_first_eq_full_first.
+
+(* Categorical attributes: a view that inherits the categories of its parent (categorical_ndarray.__array_finalize__) and
+   looks its labels up in them has the parent's categories and exactly the view of the parent's codes ... *)
+Theorem categorical_view_codes :
+  forall l pos, in_range (length l) pos ->
+    fst (cat_view pos l) = fst (cat_full l) /\ snd (cat_view pos l) = gather 0 pos (snd (cat_full l)).
+Proof. exact Lemmas2.categorical_view_codes. Qed.
+Print Assumptions categorical_view_codes.
+
+(* ... whichever of the two is asked for first ... *)
+Theorem categorical_view_first_eq_full_first :
+  forall l pos, in_range (length l) pos ->
+    let a := session (cat_answer l) [RView pos; RFull] in
+    let b := session (cat_answer l) [RFull; RView pos] in
+    nth 0 a ([], []) = nth 1 b ([], []) /\ nth 1 a ([], []) = nth 0 b ([], []) /\
+    snd (nth 0 a ([], [])) = gather 0 pos (snd (nth 1 a ([], []))) /\ fst (nth 0 a ([], [])) = fst (nth 1 a ([], [])).
+Proof. exact Lemmas2.categorical_view_first_eq_full_first. Qed.
+Print Assumptions categorical_view_first_eq_full_first.
+
+(* ... whereas a view that derives the categories from the labels it contains numbers them differently (['a'; 'b'] under [1:]) *)
+Theorem categorical_recompute_refuted :
+  exists l pos, in_range (length l) pos /\ snd (cat_view_recomputed pos l) <> gather 0 pos (snd (cat_full l)).
+Proof. exact Lemmas2.categorical_recompute_refuted. Qed.
+Print Assumptions categorical_recompute_refuted.
+
+(* ---- the three functions are TRANSLATED from the current source (tools/gen/gen_viewprog.py -> coq/gen/Gen_viewprog.v, fail-closed);
+   the translated programs, run by the interpreters of Model.v (which is what run_case runs), are the model of the theorems above. *)
+Theorem gen_to_mask_is_view_of_full :
+  forall e xs,
+    gen_mask to_mask_prog e xs None = Some (beval e xs) /\
+    forall pos, gen_mask to_mask_prog e xs (Some pos) = Some (parsed_mask_view e xs pos).
+Proof. exact Lemmas2.gen_to_mask_is_view_of_full. Qed.
+Print Assumptions gen_to_mask_is_view_of_full.
+
+Theorem gen_link_compute_elementwise :
+  forall e xs, aelementwise e = true ->
+    gen_values link_compute_prog e xs None = Some (aeval e xs) /\
+    forall pos, in_range (length xs) pos -> gen_values link_compute_prog e xs (Some pos) = Some (parsed_values_view e xs pos).
+Proof. exact Lemmas2.gen_link_compute_elementwise. Qed.
+Print Assumptions gen_link_compute_elementwise.
+
+Theorem gen_link_compute_pushdown_or_view :
+  forall e xs pos,
+    gen_values link_compute_prog e xs (Some pos) = Some (parsed_values_pushdown e xs pos) \/
+    gen_values link_compute_prog e xs (Some pos) = Some (parsed_values_view e xs pos).
+Proof. exact Lemmas2.gen_link_compute_pushdown_or_view. Qed.
+Print Assumptions gen_link_compute_pushdown_or_view.
+
+Theorem gen_finalize_inherits :
+  forall warm pos l, gen_cat_view finalize_prog warm pos l = cat_view pos l.
+Proof. exact Lemmas2.gen_finalize_inherits. Qed.
+Print Assumptions gen_finalize_inherits.
+
+(* ---- for BASIC views the positions are computed by the model (basic_positions: sel_of / to_under / flat_index, the same
+   definitions the fast-path theorems above are about) and lie inside the array, so nothing is left to assume: *)
+Theorem basic_view_positions_in_range :
+  forall shape view n,
+    Forall (fun k => 0 <= k) shape -> view_pos_steps view -> view_ok shape view = true ->
+    Z.of_nat n = zprod shape ->
+    in_range n (basic_positions shape view).
+Proof. exact Lemmas3.basic_view_positions_in_range. Qed.
+Print Assumptions basic_view_positions_in_range.
+
+Theorem parsed_view_pushdown_elementwise_basic :
+  forall e shape view xs,
+    belementwise e = true ->
+    Forall (fun k => 0 <= k) shape -> view_pos_steps view -> view_ok shape view = true -> zlen xs = zprod shape ->
+    parsed_mask_pushdown e xs (basic_positions shape view) = parsed_mask_view e xs (basic_positions shape view).
+Proof. exact Lemmas3.elementwise_mask_pushdown_basic. Qed.
+Print Assumptions parsed_view_pushdown_elementwise_basic.
+
+Theorem categorical_view_codes_basic :
+  forall shape view l,
+    Forall (fun k => 0 <= k) shape -> view_pos_steps view -> view_ok shape view = true -> zlen l = zprod shape ->
+    fst (cat_view (basic_positions shape view) l) = fst (cat_full l) /\
+    snd (cat_view (basic_positions shape view) l) = gather 0 (basic_positions shape view) (snd (cat_full l)).
+Proof. exact Lemmas3.categorical_view_codes_basic. Qed.
+Print Assumptions categorical_view_codes_basic.
